@@ -296,6 +296,273 @@ impl Sub for ScorerLookups {
 }
 
 // ---------------------------------------------------------------------------------------------
+// Wide regimes: many keys, large key values, many ids, large vocabularies (compact cases)
+
+#[derive(Clone, Debug, Serialize, Deserialize, PartialEq, Eq, Hash)]
+pub struct WideScorerCase {
+    /// key ranges (exclusive); values cross 2^8, 2^16 and approach 2^31
+    pub n1: u32,
+    pub n2: u32,
+    pub n_entries: u32,
+    /// 0 = uniform, 1 = few rows with many columns, 2 = keys clustered just below the range end, 3 = one huge row
+    pub shape: u8,
+    pub salt: u64,
+}
+
+fn lcg(state: &mut u64) -> u64 {
+    *state = state.wrapping_mul(6364136223846793005).wrapping_add(1442695040888963407);
+    *state >> 33
+}
+
+impl WideScorerCase {
+    pub fn entries(&self) -> Vec<(u32, u32, i32)> {
+        let mut st = self.salt | 1;
+        let mut m: BTreeMap<(u32, u32), i32> = BTreeMap::new();
+        for i in 0..self.n_entries {
+            let (a, b) = (lcg(&mut st), lcg(&mut st));
+            let (k1, k2) = match self.shape {
+                0 => ((a % u64::from(self.n1)) as u32, (b % u64::from(self.n2)) as u32),
+                1 => ((a % 5) as u32 * (self.n1 / 5).max(1) % self.n1, (b % u64::from(self.n2)) as u32),
+                2 => (self.n1 - 1 - (a % u64::from(self.n1.min(40))) as u32, self.n2 - 1 - (b % u64::from(self.n2.min(40))) as u32),
+                _ => (self.n1 / 2, i % self.n2),
+            };
+            let c = (lcg(&mut st) % 200_001) as i32 - 100_000;
+            m.insert((k1, k2), if i % 11 == 0 { 0 } else { c });
+        }
+        m.into_iter().map(|((a, b), c)| (a, b, c)).collect()
+    }
+}
+
+pub struct WideScorer;
+
+impl Sub for WideScorer {
+    type Case = WideScorerCase;
+    fn name(&self) -> &'static str {
+        "scorer_wide"
+    }
+    fn max_shrink_iters(&self) -> u32 {
+        200
+    }
+    fn strategy(&self, _tier: Tier) -> BoxedStrategy<WideScorerCase> {
+        let range = || prop_oneof![3 => 200u32..=70_000, 2 => 250u32..=260, 2 => 65_530u32..=65_540, 1 => 1u32..=64];
+        (range(), range(), prop_oneof![3 => 1u32..=600, 2 => 600u32..=6000, 1 => 6000u32..=40_000], 0u8..4, any::<u64>())
+            .prop_map(|(n1, n2, n_entries, shape, salt)| WideScorerCase { n1, n2, n_entries, shape, salt })
+            .boxed()
+    }
+    fn rule(&self) -> String {
+        "key ranges n1, n2 ∈ 200..70000 ∪ 250..260 ∪ 65530..65540 ∪ 1..64 (feature ids are dense, the arrays grow with the largest key), 1..40000 entries placed uniformly / in five rows / clustered at the top of the range / in one huge row \
+         (deterministic expansion of a compact case); oracle: every inserted pair looked up alone returns its value, 2000 derived non-inserted pairs (neighbours of inserted ones, swapped keys, random) and the invalid id return 0, \
+         and three multi-lane accumulations (8, 19 and 64 lanes) equal the sums; non-trivial = ≥ 256 entries or a key ≥ 65536; distinct = hash(case)".into()
+    }
+    fn check(&self, case: &WideScorerCase, ctx: &mut Ctx) -> Result<(), String> {
+        let entries = case.entries();
+        let map: BTreeMap<(u32, u32), i32> = entries.iter().map(|&(a, b, c)| ((a, b), c)).collect();
+        let inv = 0x7fff_ffffu32;
+        let mut queries: Vec<(u32, u32)> = entries.iter().map(|e| (e.0, e.1)).collect();
+        let mut st = case.salt ^ 0x9e37_79b9_7f4a_7c15;
+        for i in 0..2000usize {
+            let e = entries[(lcg(&mut st) as usize) % entries.len()];
+            let q = match i % 6 {
+                0 => (e.0, e.1.wrapping_add(1) & 0x7fff_fffe),
+                1 => (e.0.wrapping_add(1) & 0x7fff_fffe, e.1),
+                2 => (e.1, e.0),
+                3 => ((lcg(&mut st) % u64::from(case.n1)) as u32, (lcg(&mut st) % u64::from(case.n2)) as u32),
+                4 => (e.0, inv),
+                _ => (inv, e.1),
+            };
+            queries.push(q);
+        }
+        let got = guard(|| hooks::scorer::lookup_all(&entries, &queries)).map_err(|p| format!("scorer: {p}"))?.ok_or("scorer hook rejected keys")?;
+        for (q, g) in queries.iter().zip(&got) {
+            ctx.eval();
+            let want = map.get(q).copied().unwrap_or(0);
+            if *g != want {
+                return Err(format!("scorer lookup {q:?} = {g}, inserted value = {want} ({} entries, n1={}, n2={})", entries.len(), case.n1, case.n2));
+            }
+        }
+        for lanes in [8usize, 19, 64] {
+            let k1: Vec<u32> = entries.iter().rev().take(lanes).map(|e| e.0).collect();
+            let k2: Vec<u32> = entries.iter().rev().take(lanes).map(|e| e.1).collect();
+            let want: i64 = entries.iter().rev().take(lanes).map(|e| i64::from(e.2)).sum();
+            if let Some(g) = guard(|| hooks::scorer::eval(&entries, &k1, &k2)).map_err(|p| format!("scorer accumulate: {p}"))? {
+                ctx.eval();
+                if i64::from(g) != want {
+                    return Err(format!("accumulate_cost over {} lanes = {g}, sum of inserted values = {want}", k1.len()));
+                }
+            }
+        }
+        ctx.label_if(entries.len() >= 256, "ge_256_entries");
+        ctx.label_if(entries.len() >= 5000, "ge_5000_entries");
+        ctx.label_if(entries.iter().any(|e| e.0 >= 65_536 || e.1 >= 65_536), "key_ge_65536");
+        ctx.label(match case.shape {
+            0 => "uniform",
+            1 => "five_rows",
+            2 => "top_of_range",
+            _ => "one_huge_row",
+        });
+        if entries.len() >= 256 || entries.iter().any(|e| e.0 >= 65_536 || e.1 >= 65_536) {
+            ctx.nontrivial(case);
+        }
+        ctx.sample(|| serde_json::json!({"case": case, "first_entries": entries.iter().take(6).collect::<Vec<_>>(), "n_entries": entries.len()}));
+        Ok(())
+    }
+}
+
+#[derive(Clone, Debug, Serialize, Deserialize, PartialEq, Eq, Hash)]
+pub struct WideModelCase {
+    pub k: u8,
+    pub n_right: u16,
+    pub n_left: u16,
+    /// distinct feature strings per template position and side
+    pub vocab: u16,
+    pub n_costs: u32,
+    /// true: cost lines are drawn from features that do occur on the ids (many hits); false: from the whole vocabulary
+    pub hit_biased: bool,
+    pub small_costs: bool,
+    pub salt: u64,
+}
+
+impl WideModelCase {
+    pub fn model(&self) -> BigramModel {
+        let mut st = self.salt | 1;
+        let k = usize::from(self.k);
+        let v = u64::from(self.vocab.max(1));
+        let feat = |side: char, p: usize, x: u64| -> String {
+            match x % 23 {
+                0 => "*".to_string(),
+                // some strings are shared between positions and sides on purpose
+                1 => format!("sh{}", x % 7),
+                _ => format!("{side}{p}:{}", x % v),
+            }
+        };
+        let mut rows = |side: char, n: u16, st: &mut u64| -> Vec<Vec<String>> {
+            (0..n)
+                .map(|_| {
+                    let len = if lcg(st) % 6 == 0 { 1 + (lcg(st) as usize) % k } else { k };
+                    (0..len).map(|p| feat(side, p, lcg(st))).collect()
+                })
+                .collect()
+        };
+        let right_rows = rows('r', self.n_right, &mut st);
+        let left_rows = rows('l', self.n_left, &mut st);
+        let mut costs = vec![];
+        let mut seen = std::collections::HashSet::new();
+        for i in 0..self.n_costs {
+            let p = (lcg(&mut st) as usize) % k;
+            let pickf = |rows: &Vec<Vec<String>>, side: char, st: &mut u64| -> String {
+                if i % 37 == 0 {
+                    return String::new(); // BOS/EOS side
+                }
+                if self.hit_biased {
+                    let row = &rows[(lcg(st) as usize) % rows.len()];
+                    row.get(p).cloned().unwrap_or_else(|| feat(side, p, lcg(st)))
+                } else {
+                    feat(side, p, lcg(st))
+                }
+            };
+            let r = pickf(&right_rows, 'r', &mut st);
+            let l = pickf(&left_rows, 'l', &mut st);
+            if r == "*" || l == "*" {
+                continue;
+            }
+            let c = if self.small_costs { (lcg(&mut st) % 2001) as i32 - 1000 } else { (lcg(&mut st) % 200_001) as i32 - 100_000 };
+            if seen.insert((r.clone(), l.clone())) {
+                costs.push((r, l, c));
+            }
+        }
+        BigramModel { right_rows, left_rows, costs }
+    }
+}
+
+pub struct WideConnectors;
+
+impl Sub for WideConnectors {
+    type Case = WideModelCase;
+    fn name(&self) -> &'static str {
+        "connectors_wide"
+    }
+    fn max_shrink_iters(&self) -> u32 {
+        120
+    }
+    fn strategy(&self, _tier: Tier) -> BoxedStrategy<WideModelCase> {
+        (
+            prop_oneof![2 => 1u8..=8, 2 => 9u8..=17, 1 => 18u8..=33],
+            prop_oneof![3 => 20u16..=300, 1 => 250u16..=260, 1 => 1u16..=8],
+            prop_oneof![3 => 20u16..=300, 1 => 250u16..=260, 1 => 1u16..=8],
+            prop_oneof![2 => 2u16..=40, 2 => 40u16..=400, 1 => 250u16..=260],
+            prop_oneof![2 => 0u32..=300, 3 => 300u32..=6000],
+            any::<bool>(),
+            any::<bool>(),
+            any::<u64>(),
+        )
+            .prop_map(|(k, n_right, n_left, vocab, n_costs, hit_biased, small_costs, salt)| WideModelCase { k, n_right, n_left, vocab, n_costs, hit_biased, small_costs, salt })
+            .boxed()
+    }
+    fn rule(&self) -> String {
+        "compact cases expanded deterministically: K ∈ 1..33 templates, 1..300 right and left ids (around 256 too), 2..400 distinct feature strings per position and side (plus strings shared between positions \
+         and sides, '*' cells, ragged rows), 0..6000 bigram.cost lines drawn from occurring features or from the whole vocabulary, BOS/EOS lines, |cost| ≤ 1000 or ≤ 10^5; oracle: as 'connectors' — raw cost == defining sum \
+         for EVERY id pair incl. id 0, dual cost == the same wherever Σ|c| ≤ 32767, sizes agree; non-trivial = ≥ 256 ids on a side or ≥ 1000 cost lines or K > 16; distinct = hash(case)".into()
+    }
+    fn check(&self, case: &WideModelCase, ctx: &mut Ctx) -> Result<(), String> {
+        let model = case.model();
+        let rc = RefConn::from_bigram(&model);
+        let (right, left, cost) = model.render();
+        let lex = "a,0,0,1,x\n";
+        let chardef = "DEFAULT 0 1 0\n";
+        let unk = "DEFAULT,0,0,100,*\n";
+        let mut tables = vec![];
+        for dual in [false, true] {
+            let d = guard(|| vibrato::SystemDictionaryBuilder::from_readers_with_bigram_info(lex.as_bytes(), right.as_bytes(), left.as_bytes(), cost.as_bytes(), chardef.as_bytes(), unk.as_bytes(), dual))
+                .map_err(|p| format!("building (dual={dual}): {p}"))?
+                .map_err(|e| format!("builder rejected a valid bigram model (dual={dual}): {e}"))?;
+            tables.push(guard(|| all_costs(&d)).map_err(|p| format!("connector cost (dual={dual}): {p}"))?);
+        }
+        let (nl, nr, craw) = &tables[0];
+        let (nl2, nr2, cdual) = &tables[1];
+        if (*nl, *nr) != (rc.num_left, rc.num_right) || (nl2, nr2) != (nl, nr) {
+            return Err(format!("connector sizes: raw {nr}x{nl}, dual {nr2}x{nl2}, model {}x{}", rc.num_right, rc.num_left));
+        }
+        let mut clamp = 0u64;
+        let mut nonzero = 0u64;
+        for r in 0..*nr {
+            for l in 0..*nl {
+                let want = rc.cost[r][l];
+                ctx.eval();
+                let got = i64::from(craw[r * nl + l]);
+                if got != want {
+                    return Err(format!("raw connector: cost(right {r}, left {l}) = {got}, defining sum = {want} (K={})", model.k()));
+                }
+                if rc.abs_sum[r][l] <= 32767 {
+                    let gd = i64::from(cdual[r * nl + l]);
+                    if gd != want {
+                        return Err(format!("dual connector: cost(right {r}, left {l}) = {gd}, defining sum = {want} (K={})", model.k()));
+                    }
+                } else {
+                    clamp += 1;
+                }
+                nonzero += u64::from(want != 0);
+            }
+        }
+        let k = model.k();
+        ctx.label(match k {
+            0..=8 => "K_le_8",
+            9..=16 => "K_9_16",
+            _ => "K_gt16",
+        });
+        ctx.label_if(case.n_right >= 255 || case.n_left >= 255, "ge_256_ids_on_a_side");
+        ctx.label_if(model.costs.len() >= 1000, "ge_1000_cost_lines");
+        ctx.label_if(case.vocab >= 256, "ge_256_features_per_position");
+        ctx.label_if(clamp > 0, "has_clamp_regime_pairs");
+        ctx.label_if(nonzero * 4 >= (*nr * *nl) as u64, "quarter_of_pairs_nonzero");
+        if case.n_right >= 255 || case.n_left >= 255 || model.costs.len() >= 1000 || k > 16 {
+            ctx.nontrivial(case);
+        }
+        ctx.sample(|| serde_json::json!({"case": case, "K": k, "cost_lines": model.costs.len(), "nonzero_pairs": nonzero, "first_right_row": model.right_rows[0]}));
+        Ok(())
+    }
+}
+
+// ---------------------------------------------------------------------------------------------
 // Cross-build: the same generated models, costs computed in both builds
 
 #[derive(Serialize, Deserialize)]
@@ -409,10 +676,17 @@ pub fn run(opts: &Opts) -> Report {
     crate::props::committed_replays(&s, opts, &mut rep);
     run_sub(&a, opts, opts.tier.pick(10_000, 160_000), &mut rep);
     run_sub(&s, opts, opts.tier.pick(6000, 100_000), &mut rep);
+    crate::props::committed_replays(&WideScorer, opts, &mut rep);
+    crate::props::committed_replays(&WideConnectors, opts, &mut rep);
+    run_sub(&WideScorer, opts, opts.tier.pick(400, 8000), &mut rep);
+    run_sub(&WideConnectors, opts, opts.tier.pick(160, 3000), &mut rep);
     crate::props::c05::absorb_xresults(&mut rep, opts, "C07");
     rep
 }
 
 pub fn replay(path: &Path) -> Option<i32> {
-    crate::props::try_strict(&Connectors, "C07", path).or_else(|| crate::props::try_strict(&ScorerLookups, "C07", path))
+    crate::props::try_strict(&Connectors, "C07", path)
+        .or_else(|| crate::props::try_strict(&ScorerLookups, "C07", path))
+        .or_else(|| crate::props::try_strict(&WideScorer, "C07", path))
+        .or_else(|| crate::props::try_strict(&WideConnectors, "C07", path))
 }
